@@ -89,7 +89,13 @@ class Check(object):
             if len(rr.instances) < rr.floor:
                 raise AnalysisError('rule %s matched %d instances, fewer than the %d confirmed by hand: '
                                     'the rule would pass vacuously' % (rr.rule, len(rr.instances), rr.floor))
+            seen_idents = {}
             for f in rr.findings:
+                if f.ident in seen_idents:
+                    # same construct, another witness: report the construct once
+                    seen_idents[f.ident].more = getattr(seen_idents[f.ident], 'more', 0) + 1
+                    continue
+                seen_idents[f.ident] = f
                 if f.ident in known_idents:
                     known_hit.append(f)
                 else:
@@ -107,6 +113,8 @@ class Check(object):
                 json.dump({'property': self.prop, 'finding': f.to_dict(), 'repo': repo.root}, fh, indent=1, default=repr)
             out_lines.append('%s: rule %s instance %s' % (f.where, f.rule, f.key))
             out_lines.append('    %s' % f.message)
+            if getattr(f, 'more', 0):
+                out_lines.append('    (+%d more witnesses of the same construct)' % f.more)
             if f.witness is not None:
                 out_lines.append('    witness: %s' % json.dumps(f.witness, default=repr)[:600])
             out_lines.append('VIOLATION property=%s replay=%s' % (self.prop, rp))
